@@ -387,7 +387,7 @@ pub fn fault(rng: &mut Rng, huge_ok: bool) -> (&'static str, String) {
     let base_attrs = "#[repr(u8)]";
     let body = "A, B = 5, C";
     let mk = |attrs: &str, body: &str| format!("{}\npub enum F {{ {} }}\n", attrs, body);
-    let k = rng.below(if huge_ok { 41 } else { 40 });
+    let k = rng.below(if huge_ok { 44 } else { 43 });
     match k {
         // ---- abort! sites
         0 => ("abort_missing_repr", mk("#[enum_tools(iter)]", body)),
@@ -417,7 +417,7 @@ pub fn fault(rng: &mut Rng, huge_ok: bool) -> (&'static str, String) {
         17 => ("emit_duplicate_value", mk("#[repr(u8)] #[enum_tools(iter, names)]", "A = 1, B = 1, C")),
         18 => ("emit_unknown_feature", mk("#[repr(u8)] #[enum_tools(bogus, iter, also_bogus)]", body)),
         19 => ("emit_unknown_parameter", mk("#[repr(u8)] #[enum_tools(iter(bogus = \"x\", other))]", body)),
-        20 => ("emit_bad_mode", mk("#[repr(u8)] #[enum_tools(as_str(mode = \"fast\"), iter(mode = \"x\"))]", body)),
+        20 => ("emit_bad_mode", mk("#[repr(u8)] #[enum_tools(as_str(mode = \"fast\"), iter(mode = \"x\"), from_str(mode = \"\"), FromStr(mode = \"Table\"))]", body)),
         21 => ("emit_bad_vis", mk("#[repr(u8)] #[enum_tools(into(vis = \"pub(super)\"))]", body)),
         22 => ("emit_unexpected_literal", mk("#[repr(u8)] #[enum_tools(sorted(name = \"x\"))]", body)),
         23 => ("emit_expected_literal", mk("#[repr(u8)] #[enum_tools(as_str(mode), into(name = 5))]", body)),
@@ -433,7 +433,7 @@ pub fn fault(rng: &mut Rng, huge_ok: bool) -> (&'static str, String) {
         30 => ("emit_variant_attr_not_rename", mk(base_attrs, "#[enum_tools(foo = \"x\")] A, B")),
         31 => ("emit_variant_rename_not_string", mk(base_attrs, "#[enum_tools(rename = 5)] A, #[enum_tools] B")),
         32 => ("emit_enum_attr_name_value", mk("#[repr(u8)] #[enum_tools = \"x\"]", body)),
-        33 => ("emit_nested_meta", mk("#[repr(u8)] #[enum_tools(iter(mode(x)), \"lit\")]", body)),
+        33 => ("emit_nested_meta", mk("#[repr(u8)] #[enum_tools(iter(mode(x)), names(a(b), c = d))]", body)),
         34 => ("emit_two_unknown", mk("#[repr(u8)] #[enum_tools(x1, x2, x3(y1, y2))]", body)),
         // ---- plain panics, re-raised by proc-macro-error
         35 => ("panic_bad_ident_name", mk("#[repr(u8)] #[enum_tools(iter(name = \"1 bad\"))]", body)),
@@ -442,6 +442,9 @@ pub fn fault(rng: &mut Rng, huge_ok: bool) -> (&'static str, String) {
         // ---- not even a DeriveInput
         38 => ("parse_error", "fn f() {}".to_string()),
         39 => ("abort_after_emit", mk("#[repr(u8)] #[enum_tools(bogus, range)]", body)),
+        40 => ("abort_literal_in_list", mk("#[repr(u8)] #[enum_tools(iter, \"lit\")]", body)),
+        41 => ("emit_vis_not_string", mk("#[repr(u8)] #[enum_tools(into(vis = 5), MIN(vis), MAX(name))]", body)),
+        42 => ("emit_duplicate_value_implicit", mk("#[repr(u8)] #[enum_tools(iter, names)]", "A = 1, B = 0, C")),
         _ => {
             let mut b = String::with_capacity(65535 * 8);
             for i in 0..65535 {
